@@ -467,7 +467,7 @@ class Interp:
             if isinstance(k, slice):
                 if base.length is not None and all(isinstance(x, (int, type(None))) for x in (k.start, k.stop, k.step)):
                     return [self.index(base, i, None) for i in range(base.length)[k]]
-                return Sym('%s[%s:%s]' % (base.text, '' if k.start is None else show(k.start), '' if k.stop is None else show(k.stop)))
+                return Sym('%s[%s:%s]' % (base.text, '' if k.start is None else show(k.start), '' if k.stop is None else show(k.stop)), struct=('index', base, k))
             if isinstance(k, int) and base.length is not None:
                 if not -base.length <= k < base.length:
                     raise Raised('IndexError')
